@@ -304,6 +304,7 @@ func checkAssemblerOrder(c *core.Ctx, pkg, rp string) {
 	}
 
 	if pkg == "reassembly" {
+		checkOverlapAlways(c, c.Rule(rp+".13", "T", "the packet being handled is compared with the out-of-order queue on every path (only an empty queue may skip it)"), pkg)
 		r10 := c.Rule(rp+".10", "T", "a list built together with the byte count of its elements is never emptied without zeroing the count")
 		checkCoupledAccumulators(c, r10, pkg)
 	}
@@ -311,6 +312,7 @@ func checkAssemblerOrder(c *core.Ctx, pkg, rp string) {
 	checkPairedLinks(c, r11, pkg)
 	r9 := c.Rule(rp+".9", "T", "a delivered batch is not delivered again: on every path (across calls) from a delivery of a.ret to the next append into a.ret the batch is emptied")
 	checkBatchReset(c, r9, pkg)
+	checkConnReset(c, c.Rule(rp+".12", "T", "a recycled connection carries nothing over: every field some function stores a value into is stored by connection.reset"), pkg)
 	r8 := c.Rule(rp+".8", "T", "a recycled page carries nothing over: every per-use field of a page that the package ever stores a value into is reset by pageCache.next or stored by the function that takes the page from it")
 	checkPageReset(c, r8, pkg)
 
@@ -1523,4 +1525,223 @@ func checkPairedLinks(c *core.Ctx, r *core.Rule, pkg string) {
 		}
 	}
 	c.Counts[pkg+"_link_stores"] = n
+}
+
+// checkConnReset (R9.12 / R10.12): connection objects are recycled through
+// the pool's free list and re-armed by connection.reset.  Every field of the
+// connection (and of its two half-connections) into which some function of
+// the package stores a value that may be non-zero must be stored by reset on
+// every path (a store of the whole struct counts; a store through a
+// *halfconnection that is not rooted at the receiver is credited to both
+// halves).  A field reset forgets — the queue's first/last pointers, say —
+// hands the previous connection's state to the next connection.
+func checkConnReset(c *core.Ctx, r *core.Rule, pkg string) {
+	p := c.P
+	reset := p.Func(pkg, "connection.reset")
+	if reset == nil || len(reset.Blocks) == 0 {
+		r.Missing(pkg+".connection.reset", "not found")
+		return
+	}
+	connT, ok := reset.Params[0].Type().Underlying().(*types.Pointer).Elem().Underlying().(*types.Struct)
+	if !ok {
+		r.Missing(pkg+".connection", "type not found")
+		return
+	}
+	isSync := func(t types.Type) bool {
+		if nt, ok := t.(*types.Named); ok && nt.Obj().Pkg() != nil && nt.Obj().Pkg().Path() == "sync" {
+			return true
+		}
+		return false
+	}
+	var fields []string
+	halfFields := map[string]bool{} // field names of nested (non-embedded) struct members, for crediting
+	var flat func(prefix string, st *types.Struct)
+	flat = func(prefix string, st *types.Struct) {
+		for i := 0; i < st.NumFields(); i++ {
+			f := st.Field(i)
+			if isSync(f.Type()) {
+				continue
+			}
+			if sub, ok := f.Type().Underlying().(*types.Struct); ok && !isSync(f.Type()) {
+				if nt, ok := f.Type().(*types.Named); !ok || nt.Obj().Pkg() == nil || nt.Obj().Pkg().Path() != "time" {
+					flat(prefix+f.Name()+".", sub)
+					continue
+				}
+			}
+			fields = append(fields, prefix+f.Name())
+			if prefix != "" {
+				halfFields[f.Name()] = true
+			}
+		}
+	}
+	flat("", connT)
+	covers := func(set map[string]bool, f string) bool {
+		if set[f] {
+			return true
+		}
+		for i := len(f) - 1; i > 0; i-- {
+			if f[i] == '.' && set[f[:i]] {
+				return true
+			}
+		}
+		return false
+	}
+	rets := core.Returns(reset)
+	inReset := map[string]bool{}
+	core.Instrs(reset, func(ins ssa.Instruction) {
+		st, ok := ins.(*ssa.Store)
+		if !ok {
+			return
+		}
+		dom := true
+		for _, rt := range rets {
+			if !core.Dominates(ins, rt) {
+				dom = false
+			}
+		}
+		if pth, base := core.FieldPath(st.Addr); pth != "" && base == ssa.Value(reset.Params[0]) {
+			if dom {
+				inReset[pth] = true
+			}
+			return
+		}
+		// a store through some other pointer to a nested struct (re-arming both halves in a loop)
+		if fa, ok := st.Addr.(*ssa.FieldAddr); ok {
+			name := core.FieldOfAddr(fa).Name()
+			if halfFields[name] {
+				for _, f := range fields {
+					if strings.HasSuffix(f, "."+name) {
+						inReset[f] = true
+					}
+				}
+			}
+		}
+	})
+	// dirty-capable fields: stored outside reset with a value that is not the zero constant
+	dirty := map[string]ssa.Instruction{}
+	for _, fn := range pkgFunctions(p, pkg) {
+		if fn == reset || strings.HasSuffix(p.Pos(fn.Pos()), "_test.go") {
+			continue
+		}
+		core.Instrs(fn, func(ins ssa.Instruction) {
+			st, ok := ins.(*ssa.Store)
+			if !ok {
+				return
+			}
+			fa, ok := st.Addr.(*ssa.FieldAddr)
+			if !ok {
+				return
+			}
+			if k, isK := st.Val.(*ssa.Const); isK && (k.Value == nil || k.Value.String() == "0" || k.Value.String() == "false") {
+				return
+			}
+			owner := fa.X.Type().Underlying().(*types.Pointer).Elem()
+			name := core.FieldOfAddr(fa).Name()
+			for _, f := range fields {
+				last := f
+				if i := strings.LastIndex(f, "."); i >= 0 {
+					last = f[i+1:]
+				}
+				if last != name {
+					continue
+				}
+				// the owner struct must be the connection or one of its nested structs
+				if strings.Contains(f, ".") {
+					if _, isConn := owner.Underlying().(*types.Struct); isConn && owner.Underlying() != types.Type(connT) {
+						if _, seen := dirty[f]; !seen {
+							dirty[f] = ins
+						}
+					}
+				} else if owner.Underlying() == types.Type(connT) {
+					if _, seen := dirty[f]; !seen {
+						dirty[f] = ins
+					}
+				}
+			}
+		})
+	}
+	n := 0
+	for _, f := range fields {
+		at, isDirty := dirty[f]
+		if !isDirty {
+			continue
+		}
+		n++
+		key := pkg + ".connection.reset/resets:" + f
+		if covers(inReset, f) {
+			r.OK(key, p.Pos(reset.Pos()), "stored by reset on every path")
+		} else {
+			r.Violate(key, p.Pos(reset.Pos()), "connection field "+f+" receives a value at "+p.InstrPos(at)+" but connection.reset, which re-arms a recycled connection object, does not store it on every path: a new connection taken from the free list starts with the previous connection's "+f+" (queued pages or counters of a stream that no longer exists are delivered to, or counted for, the new one)", nil)
+		}
+	}
+	c.Counts[pkg+"_connection_dirty_fields"] = n
+	if n < 4 {
+		r.Missing(pkg+"/connection dirty fields", fmt.Sprintf("only %d found", n))
+	}
+}
+
+// checkOverlapAlways (R9.13): in the reassembly package the packet being
+// handled is compared with the out-of-order queue (checkOverlap trims or drops
+// queued pages the packet covers, or trims the packet) on every path of every
+// function that does so at all; the only condition that may skip the
+// comparison is that the queue is empty (x.first == nil).  A "fast path" that
+// skips it for other reasons leaves a queued page overlapping delivered bytes:
+// the page is later delivered again, with a negative skip.
+func checkOverlapAlways(c *core.Ctx, r *core.Rule, pkg string) {
+	p := c.P
+	co := p.Func(pkg, "Assembler.checkOverlap")
+	if co == nil {
+		r.Missing(pkg+".Assembler.checkOverlap", "not found")
+		return
+	}
+	n := 0
+	for _, fn := range pkgFunctions(p, pkg) {
+		if fn == co || len(fn.Blocks) == 0 {
+			continue
+		}
+		calls := false
+		core.Instrs(fn, func(ins ssa.Instruction) {
+			if cc := core.CallCommonOf(ins); cc != nil && cc.StaticCallee() == co {
+				calls = true
+			}
+		})
+		if !calls {
+			continue
+		}
+		n++
+		emptyQueue := func(b *ssa.BasicBlock) bool {
+			for _, dc := range core.DomConds(b) {
+				bo, ok := dc.V.(*ssa.BinOp)
+				if !ok {
+					continue
+				}
+				for _, side := range [][2]ssa.Value{{bo.X, bo.Y}, {bo.Y, bo.X}} {
+					if !core.IsNilConst(side[1]) {
+						continue
+					}
+					if ld, ok := side[0].(*ssa.UnOp); ok && ld.Op == token.MUL {
+						if fa, ok := ld.X.(*ssa.FieldAddr); ok && core.FieldOfAddr(fa).Name() == "first" {
+							if (bo.Op == token.EQL && dc.Truth) || (bo.Op == token.NEQ && !dc.Truth) {
+								return true
+							}
+						}
+					}
+				}
+			}
+			return false
+		}
+		esc := core.ForwardSearch(fn, nil, func(i ssa.Instruction) bool {
+			_, isRet := i.(*ssa.Return)
+			return isRet && !emptyQueue(i.Block())
+		}, func(i ssa.Instruction) bool {
+			if cc := core.CallCommonOf(i); cc != nil && cc.StaticCallee() == co {
+				return true
+			}
+			return false
+		})
+		r.Check(esc == nil, core.FnKey(fn)+"/checkOverlap-on-every-path", p.Pos(fn.Pos()), "every path compares the packet with the queue (or the queue is empty)", "a path through this function returns without comparing the packet with the out-of-order queue although the queue may hold pages: a queued page that overlaps the bytes delivered now stays queued, stalls the stream and is delivered again at the next flush (negative skip, duplicated bytes)")
+	}
+	if n < 1 {
+		r.Missing(pkg+"/checkOverlap callers", "none found")
+	}
 }
